@@ -185,3 +185,596 @@ Lemma by_property_err pm ps arg arg' e :
 Proof.
   unfold by_property. destruct (parse_pmode pm); [destruct ps; discriminate|tauto].
 Qed.
+
+(* ------------------------------------------- identities and short iteration *)
+Lemma has_char_app a s1 s2 : has_char a (s1 ++ s2) = has_char a s1 || has_char a s2.
+Proof.
+  induction s1 as [|c r IH]; simpl; [reflexivity|]. rewrite IH. apply orb_assoc.
+Qed.
+
+Definition all_nonplain (l : list string) : Prop := forall x, In x l -> plain x = false.
+
+Lemma plain_eq k v : plain (k ++ "=" ++ v) = false.
+Proof.
+  unfold plain, short_iteration. rewrite has_char_app. simpl. rewrite orb_true_r. reflexivity.
+Qed.
+
+Lemma plain_colon k v : plain (k ++ ":" ++ v) = false.
+Proof.
+  unfold plain, short_iteration. rewrite (has_char_app ":"%char). simpl.
+  rewrite orb_true_r. simpl. rewrite andb_false_r. reflexivity.
+Qed.
+
+Lemma plain_ncvar n : plain ("ncvar%" ++ n) = false.
+Proof. unfold plain, short_iteration. simpl. apply andb_false_r. Qed.
+
+Lemma plain_ncdim n : plain ("ncdim%" ++ n) = false.
+Proof. unfold plain, short_iteration. simpl. apply andb_false_r. Qed.
+
+Lemma all_nonplain_app a b : all_nonplain a -> all_nonplain b -> all_nonplain (a +++ b).
+Proof. intros Ha Hb x Hx. apply in_app_or in Hx as [H|H]; [apply Ha|apply Hb]; exact H. Qed.
+
+Lemma all_nonplain_opt {A} (o : option A) f :
+  (forall a, plain (f a) = false) -> all_nonplain (opt_list o f).
+Proof. intros H x Hx. destruct o; simpl in Hx; [destruct Hx as [<-|[]]; apply H|contradiction]. Qed.
+
+Lemma all_nonplain_tl l : all_nonplain l -> all_nonplain (tl l).
+Proof. intros H x Hx. apply H. destruct l; [contradiction|right; exact Hx]. Qed.
+
+(* everything after a possible leading standard_name contains "=" or "%" *)
+Lemma props_body_tail p : all_nonplain (tl (props_body p)).
+Proof.
+  unfold props_body.
+  set (rest := flat_map _ special_props +++ _).
+  assert (R : all_nonplain rest).
+  { unfold rest. apply all_nonplain_app; [|apply all_nonplain_app].
+    - intros x Hx. apply in_flat_map in Hx as [k [_ Hk]].
+      destruct (assoc k (p_props p)); simpl in Hk; [destruct Hk as [<-|[]]; apply plain_eq|contradiction].
+    - intros x Hx. apply in_map_iff in Hx as [kv [<- _]]. apply plain_eq.
+    - apply all_nonplain_opt. intro a. apply plain_ncvar. }
+  destruct (assoc "standard_name" (p_props p)); simpl.
+  - exact R.
+  - apply all_nonplain_tl. exact R.
+Qed.
+
+Definition tails_nonplain (segs : list (list string)) : Prop :=
+  forall seg, In seg segs -> all_nonplain (tl seg).
+
+Lemma segments_tails c : tails_nonplain (segments c).
+Proof.
+  unfold segments, tails_nonplain.
+  destruct (String.eqb (c_type c) "domain_axis").
+  { intros seg [<-|[]]. destruct (c_ncdim c); intros x []. }
+  destruct (String.eqb (c_type c) "cell_method").
+  { intros seg [<-|[]]. destruct (c_comp c); intros x []. }
+  destruct (String.eqb (c_type c) "coordinate_reference").
+  { intros seg [<-|[]]. apply all_nonplain_tl. apply all_nonplain_app.
+    - intros x Hx. apply in_flat_map in Hx as [k [_ Hk]].
+      destruct (assoc k (c_cc c)); simpl in Hk; [destruct Hk as [<-|[]]; apply plain_colon|contradiction].
+    - apply all_nonplain_opt. intro a. apply plain_ncvar. }
+  intros seg Hs. apply in_app_or in Hs as [Hs|Hs].
+  - destruct (comp_prefix (c_type c)); [destruct (c_comp c)|]; simpl in Hs; try contradiction.
+    destruct Hs as [<-|[]]. intros x [].
+  - apply in_app_or in Hs as [Hs|Hs].
+    + destruct Hs as [<-|[]]. apply props_body_tail.
+    + destruct (c_bounds c); simpl in Hs; [|contradiction].
+      destruct Hs as [<-|[]]. apply props_body_tail.
+Qed.
+
+Lemma firstn1_In (x : string) seg : In x (firstn 1 seg) -> In x seg.
+Proof. destruct seg; simpl; [tauto|]. intros [H|[]]. left. exact H. Qed.
+
+Lemma short_subset c x : In x (identities_short c) -> In x (identities c).
+Proof.
+  unfold identities_short, identities. intro H. apply in_flat_map in H as [seg [Hs Hx]].
+  apply in_concat. exists seg. split; [exact Hs|apply firstn1_In; exact Hx].
+Qed.
+
+Lemma short_iteration_safe c x :
+  plain x = true -> (In x (identities_short c) <-> In x (identities c)).
+Proof.
+  intro P. split; [apply short_subset|].
+  unfold identities, identities_short. intro H. apply in_concat in H as [seg [Hs Hx]].
+  apply in_flat_map. exists seg. split; [exact Hs|].
+  destruct seg as [|h t]; [contradiction|]. destruct Hx as [->|Hx]; [left; reflexivity|].
+  pose proof (segments_tails c _ Hs x Hx) as N. simpl in N. congruence.
+Qed.
+
+(* --------------------------------------------------------- filter_by_identity *)
+Lemma prefix_key s : prefixb "key%" s = true -> s = "key%" ++ sdrop 4 s.
+Proof.
+  intro H. do 4 (destruct s as [|? s]; [simpl in H; try rewrite ?andb_false_r in H; discriminate H|]). cbn [prefixb] in H.
+  repeat match goal with
+         | H : _ && _ = true |- _ => apply andb_true_iff in H; destruct H
+         | H : Ascii.eqb _ _ = true |- _ => apply Ascii.eqb_eq in H; subst
+         end.
+  reflexivity.
+Qed.
+
+Lemma prefix_key_app k : prefixb "key%" ("key%" ++ k) = true.
+Proof. reflexivity. Qed.
+
+Lemma key_hit_some ks s k :
+  key_hit ks (VStr s) = Some k -> (s = k \/ s = "key%" ++ k) /\ In k ks.
+Proof.
+  unfold key_hit. destruct (mem s ks) eqn:M.
+  - intro H. inversion H. subst. split; [left; reflexivity|apply mem_In; exact M].
+  - destruct (prefixb "key%" s && mem (sdrop 4 s) ks) eqn:Q; [|discriminate].
+    apply andb_true_iff in Q as [Q1 Q2]. intro H. inversion H. subst. split.
+    + right. apply prefix_key. exact Q1.
+    + apply mem_In. exact Q2.
+Qed.
+
+Lemma key_hit_mono ks K v k :
+  incl ks K -> key_hit ks v = Some k -> key_hit K v <> None.
+Proof.
+  intros I. destruct v; try discriminate. unfold key_hit.
+  destruct (mem s ks) eqn:M.
+  - intros _. apply mem_In in M. apply I in M. apply mem_In in M. rewrite M. discriminate.
+  - destruct (prefixb "key%" s && mem (sdrop 4 s) ks) eqn:Q; [|discriminate].
+    apply andb_true_iff in Q as [Q1 Q2]. intros _.
+    destruct (mem s K); [discriminate|].
+    apply mem_In in Q2. apply I in Q2. apply mem_In in Q2. rewrite Q1, Q2. discriminate.
+Qed.
+
+Lemma first_match_some ids i :
+  (exists v, In v ids /\ match_str v i = true) <-> first_match ids i <> None.
+Proof.
+  induction ids as [|v r IH]; simpl.
+  - split; [intros [v [[] _]]|congruence].
+  - destruct (match_str v i) eqn:M.
+    + split; [discriminate|]. intros _. exists v. split; [left; reflexivity|exact M].
+    + rewrite <- IH. split.
+      * intros [w [[<-|Hw] Mw]]; [congruence|]. exists w. split; assumption.
+      * intros [w [Hw Mw]]. exists w. split; [right; exact Hw|exact Mw].
+Qed.
+
+Lemma some_str_exists ids i :
+  some_str ids i = true <-> exists v, In v ids /\ match_str v i = true.
+Proof. unfold some_str. apply existsb_exists. Qed.
+
+Lemma ident_matched_iff sh short ids c :
+  ident_matched sh short ids c = true <->
+  exists i, In i (idents_with sh short c) /\ some_str ids i = true.
+Proof.
+  unfold ident_matched. rewrite existsb_exists. split; intros [i [Hi H]]; exists i; split; try exact Hi.
+  - apply some_str_exists. apply first_match_some. destruct (first_match ids i); [discriminate|discriminate].
+  - apply some_str_exists in H. apply first_match_some in H. destruct (first_match ids i); [reflexivity|congruence].
+Qed.
+
+Lemma key_hits_In ks ids k :
+  In k (key_hits ks ids) <-> exists v, In v ids /\ key_hit ks v = Some k.
+Proof.
+  unfold key_hits. rewrite in_flat_map. split; intros [v [Hv H]]; exists v; split; try exact Hv.
+  - destruct (key_hit ks v); simpl in H; [destruct H as [<-|[]]; reflexivity|contradiction].
+  - rewrite H. left. reflexivity.
+Qed.
+
+Lemma key_named_hits K ids a c :
+  wf K a -> In c a ->
+  (key_named ids c = true <-> In (c_key c) (key_hits (keys_of a) ids)).
+Proof.
+  intros [_ [I [P _]]] Hc.
+  assert (Kc : In (c_key c) (keys_of a)) by (unfold keys_of; apply in_map; exact Hc).
+  rewrite key_hits_In. unfold key_named. rewrite existsb_exists. split.
+  - intros [v [Hv H]]. exists v. split; [exact Hv|]. destruct v; try discriminate.
+    apply orb_true_iff in H as [H|H]; apply String.eqb_eq in H; subst s; unfold key_hit.
+    + apply mem_In in Kc. rewrite Kc. reflexivity.
+    + destruct (mem ("key%" ++ c_key c) (keys_of a)) eqn:M.
+      * apply mem_In in M. apply I in M. apply P in M. rewrite prefix_key_app in M. discriminate.
+      * rewrite prefix_key_app. simpl. apply mem_In in Kc. rewrite Kc. reflexivity.
+  - intros [v [Hv H]]. exists v. split; [exact Hv|]. destruct v; try discriminate.
+    apply key_hit_some in H as [[->| ->] _]; apply orb_true_iff; [left|right]; apply String.eqb_refl.
+Qed.
+
+Lemma ids_rest_In ks ids v : In v (ids_rest ks ids) <-> In v ids /\ key_hit ks v = None.
+Proof.
+  unfold ids_rest. rewrite filter_In. destruct (key_hit ks v); split; intros [H1 H2]; split; auto; discriminate.
+Qed.
+
+Lemma by_identity_In K ids a c :
+  wf K a -> (In c (by_identity ids a) <-> In c a /\ sel_identity ids c = true).
+Proof.
+  intro W. unfold by_identity, by_identity_gen, sel_identity.
+  destruct ids as [|v0 r0]; [simpl; tauto|]. set (ids := v0 :: r0). cbn [unless_empty].
+  rewrite filter_In. split; intros [Hc H]; split; try exact Hc.
+  - (* soundness *)
+    apply mem_In in H. unfold fbi_matched in H. cbv zeta in H.
+    assert (Hk : In (c_key c) (key_hits (keys_of a) ids) -> key_named ids c = true)
+      by (apply (key_named_hits K ids a c W Hc)).
+    destruct (ids_rest (keys_of a) ids) eqn:R.
+    + rewrite (Hk H). reflexivity.
+    + apply in_app_or in H as [H|H]; [rewrite (Hk H); reflexivity|].
+      unfold keys_of in H. apply in_map_iff in H as [c' [E H]]. apply filter_In in H as [Hc' Q].
+      assert (c' = c) by (destruct W as [J _]; apply J; assumption). subst c'.
+      apply andb_true_iff in Q as [_ Q]. apply ident_matched_iff in Q as [i [Hi Hm]].
+      apply orb_true_iff. right. apply existsb_exists. exists i. split; [|exact Hm].
+      unfold idents_with in Hi. destruct (forallb short_iteration ids); [apply short_subset|]; exact Hi.
+  - (* completeness *)
+    apply mem_In. unfold fbi_matched. cbv zeta.
+    apply orb_true_iff in H as [H|H].
+    + apply (key_named_hits K ids a c W Hc) in H.
+      destruct (ids_rest (keys_of a) ids); [exact H|apply in_or_app; left; exact H].
+    + apply existsb_exists in H as [i [Hi Hm]].
+      pose proof Hm as Hm'. apply some_str_exists in Hm' as [v [Hv Mv]].
+      assert (N : key_hit (keys_of a) v = None).
+      { destruct (key_hit (keys_of a) v) as [kk|] eqn:E; [|reflexivity]. exfalso.
+        destruct W as [_ [I [_ C]]].
+        destruct v as [sv| | |]; try discriminate. simpl in Mv. apply String.eqb_eq in Mv. subst sv.
+        apply (key_hit_mono _ K _ _ I E). apply (C c Hc i Hi). }
+      assert (Rv : In v (ids_rest (keys_of a) ids)) by (apply ids_rest_In; split; assumption).
+      destruct (ids_rest (keys_of a) ids) eqn:R; [contradiction|].
+      destruct (mem (c_key c) (key_hits (keys_of a) ids)) eqn:M.
+      * apply in_or_app. left. apply mem_In. exact M.
+      * apply in_or_app. right. unfold keys_of. apply in_map. apply filter_In. split; [exact Hc|].
+        fold (keys_of a). rewrite M. cbn [negb andb]. apply ident_matched_iff.
+        unfold idents_with. destruct (forallb short_iteration ids) eqn:S.
+        -- exists i. split; [|exact Hm]. apply short_iteration_safe; [|exact Hi].
+           rewrite forallb_forall in S. specialize (S v Hv).
+           destruct v as [sv| | |]; try discriminate. simpl in Mv. apply String.eqb_eq in Mv. subst sv. exact S.
+        -- exists i. split; assumption.
+Qed.
+
+(* ------------------------------------------------------------ filter_by_axis *)
+Lemma by_axis_In E m vs arg r c :
+  by_axis_gen identities_short true E m vs arg = Ok r ->
+  (In c r <-> In c arg /\ sel_axis E m vs c = true).
+Proof.
+  unfold by_axis_gen, sel_axis. destruct vs as [|v vs'].
+  - intro H. assert (R : r = by_data arg) by congruence. subst r. apply by_data_In.
+  - set (A := convert identities_short true E true (v :: vs')).
+    destruct m; try discriminate;
+      (destruct A as [|a0 A'] eqn:EA; intro H;
+       [assert (R : r = []) by congruence; subst r; simpl; split; [tauto|intros [_ X]; discriminate]
+       |match type of H with Ok ?x = _ => assert (R : r = x) by congruence end; subst r;
+        rewrite filter_In; destruct (c_axes c); [rewrite axis_ok_rel by discriminate|]; reflexivity]).
+Qed.
+
+Lemma by_axis_err E m vs arg e :
+  by_axis_gen identities_short true E m vs arg = Err e <-> refused m [] (FAxis vs) = Some e.
+Proof.
+  unfold by_axis_gen, refused. destruct vs as [|v vs']; [split; discriminate|].
+  destruct m; try (split; discriminate);
+    try (destruct (convert identities_short true E true (v :: vs')); split; discriminate).
+  split; intro H; inversion H; reflexivity.
+Qed.
+
+(* --------------------------------- every filter: selected iff the report says so *)
+Lemma wf_sub K a r : wf K a -> (forall c, In c r -> In c a) -> wf K r.
+Proof.
+  intros [J [I [P C]]] S. unfold wf. splits.
+  - intros c c' Hc Hc'. apply J; apply S; assumption.
+  - intros k Hk. unfold keys_of in Hk. apply in_map_iff in Hk as [c [<- Hc]].
+    apply I. unfold keys_of. apply in_map. apply S. exact Hc.
+  - exact P.
+  - intros c Hc. apply C. apply S. exact Hc.
+Qed.
+
+Lemma run_filter_ok K E am pm f a r :
+  wf K a -> run_filter cur E am pm f a = Ok r ->
+  forall c, In c r <-> In c a /\ selects E am pm f c = true.
+Proof.
+  intros W H c. destruct f; cbn [run_filter cur v_short v_da_root] in H; cbn [selects];
+    try (assert (R : r = _) by (symmetry; injection H as H; exact H); subst r).
+  - apply by_type_In.
+  - apply by_data_In.
+  - apply by_naxes_In.
+  - apply by_ncvar_In.
+  - apply by_ncdim_In.
+  - apply by_component_In.
+  - apply by_component_In.
+  - apply by_component_In.
+  - apply by_component_In.
+  - apply by_size_In.
+  - apply by_key_In.
+  - apply (by_identity_In K). exact W.
+  - apply by_axis_In. exact H.
+  - apply by_property_In with (arg := a). exact H.
+  - discriminate.
+Qed.
+
+Lemma run_filter_err E am pm f a e :
+  run_filter cur E am pm f a = Err e <-> refused am pm f = Some e.
+Proof.
+  destruct f; cbn [run_filter cur v_short v_da_root refused]; try (split; discriminate).
+  - rewrite by_axis_err. unfold refused. reflexivity.
+  - unfold by_property. destruct (parse_pmode pm); [destruct ps; split; discriminate|].
+    split; intro H; inversion H; reflexivity.
+  - split; intro H; inversion H; reflexivity.
+Qed.
+
+(* -------------------------------------------------- chains = intersection *)
+Lemma chain_intersection K E am pm fs : forall a r,
+  wf K a -> run_chain cur E am pm fs a = Ok r ->
+  forall c, In c r <-> In c a /\ forallb (fun f => selects E am pm f c) fs = true.
+Proof.
+  induction fs as [|f fs IH]; intros a r W H c.
+  - simpl in H. inversion H. subst. simpl. tauto.
+  - cbn [run_chain] in H. destruct (run_filter cur E am pm f a) as [a1|e] eqn:F; [|discriminate].
+    pose proof (run_filter_ok K E am pm f a a1 W F) as S1.
+    assert (W1 : wf K a1) by (apply (wf_sub K a); [exact W|intros x Hx; apply S1 in Hx; tauto]).
+    rewrite (IH a1 r W1 H c). rewrite S1. cbn [forallb]. rewrite andb_true_iff. tauto.
+Qed.
+
+Lemma chain_total E am pm fs : forall a,
+  (forall f, In f fs -> refused am pm f = None) -> exists r, run_chain cur E am pm fs a = Ok r.
+Proof.
+  induction fs as [|f fs IH]; intros a N.
+  - exists a. reflexivity.
+  - cbn [run_chain]. destruct (run_filter cur E am pm f a) as [a1|e] eqn:F.
+    + apply IH. intros g Hg. apply N. right. exact Hg.
+    + apply run_filter_err in F. rewrite N in F by (left; reflexivity). discriminate.
+Qed.
+
+Lemma chain_err E am pm fs : forall a e,
+  run_chain cur E am pm fs a = Err e -> exists f, In f fs /\ refused am pm f = Some e.
+Proof.
+  induction fs as [|f fs IH]; intros a e H; [discriminate|].
+  cbn [run_chain] in H. destruct (run_filter cur E am pm f a) as [a1|e1] eqn:F.
+  - apply IH in H as [g [Hg R]]. exists g. split; [right; exact Hg|exact R].
+  - inversion H. subst. exists f. split; [left; reflexivity|apply run_filter_err in F; exact F].
+Qed.
+
+(* ------------------------------ histories: unfilter, inverse_filter, purity *)
+Lemma root_unfilter_n n : forall o, root_obj (unfilter_n n o) = root_obj o.
+Proof.
+  induction n as [|n IH]; intro o; [reflexivity|].
+  destruct o as [m fa [p|]]; cbn [unfilter_n prefiltered]; [rewrite IH|]; reflexivity.
+Qed.
+
+Lemma root_root o : root_obj (root_obj o) = root_obj o.
+Proof.
+  revert o. fix IH 1. intros [m fa [p|]]; cbn [root_obj]; [apply IH|reflexivity].
+Qed.
+
+Lemma root_unfilter d o : root_obj (unfilter d o) = root_obj o.
+Proof. destruct d; [apply root_unfilter_n|apply root_root]. Qed.
+
+Lemma chain_obj_root fda am pm self fs : forall arg r,
+  root_obj arg = root_obj self -> chain_obj cur fda am pm self fs arg = Ok r ->
+  root_obj r = root_obj self.
+Proof.
+  induction fs as [|f fs IH]; intros arg r Ha H.
+  - inversion H. subst. exact Ha.
+  - cbn [chain_obj] in H. destruct (step_filter cur fda am pm self f arg) as [a1|e] eqn:S; [|discriminate].
+    apply (IH a1 r); [|exact H]. unfold step_filter in S.
+    destruct (run_filter cur (env_of fda self) am pm f (members arg)); [|discriminate].
+    inversion S. cbn [cur v_type_pre_arg negb andb]. rewrite andb_false_r. cbn [root_obj]. exact Ha.
+Qed.
+
+Lemma inverse_root d o r : inverse_filter cur d o = Ok r -> root_obj r = root_obj o.
+Proof.
+  unfold inverse_filter. cbn [cur v_pop_default v_inv_guard orb].
+  destruct d as [[|d0]|]; try (intro H; inversion H; reflexivity).
+  destruct (applied o) as [|[|] fa]; try (intro H; inversion H; reflexivity).
+  destruct (1 <? S (leading_inverse (applied (unfilter (Some (S d0)) o))))%nat;
+    intro H; injection H as <-; first [apply root_unfilter | apply root_unfilter_n | exact (root_unfilter_n (S d0) o)].
+Qed.
+
+Lemma run_ops_root fda ps : forall o r, run_ops cur fda o ps = Ok r -> root_obj r = root_obj o.
+Proof.
+  induction ps as [|p ps IH]; intros o r H.
+  - inversion H. reflexivity.
+  - cbn [run_ops] in H. destruct (step_op cur fda o p) as [o1|e] eqn:S; [|discriminate].
+    rewrite (IH o1 r H). destruct p; cbn [step_op] in S.
+    + apply (chain_obj_root fda am pm o fs o o1); [reflexivity|exact S].
+    + apply inverse_root in S. exact S.
+    + inversion S. apply root_unfilter.
+Qed.
+
+Lemma minus_In a b c : In c (minus a b) <-> In c a /\ ~ In (c_key c) (keys_of b).
+Proof. unfold minus. rewrite filter_In, negb_true_iff, mem_false. reflexivity. Qed.
+
+Lemma inverse_default o :
+  exists r, inverse_filter cur None o = Ok r /\
+  forall c, In c (members r) <-> In c (members (root_obj o)) /\ ~ In (c_key c) (keys_of (members o)).
+Proof.
+  eexists. split; [reflexivity|]. intro c. cbn [members unfilter]. apply minus_In.
+Qed.
+
+(* directly after a filter: inverse_filter(1) is the complement within what was filtered *)
+Lemma inverse_after_filter fda am pm self f arg o :
+  step_filter cur fda am pm self f arg = Ok o ->
+  exists r, inverse_filter cur (Some 1%nat) o = Ok r /\
+  forall c, In c (members r) <-> In c (members arg) /\ ~ In (c_key c) (keys_of (members o)).
+Proof.
+  unfold step_filter. destruct (run_filter cur (env_of fda self) am pm f (members arg)) as [m|]; [|discriminate].
+  cbn [cur v_type_pre_arg negb]. rewrite andb_false_r. intro H. inversion H. subst o.
+  eexists. split; [reflexivity|]. intro c. cbn [members unfilter unfilter_n prefiltered]. apply minus_In.
+Qed.
+
+(* inverse_filter(1) twice gives back the filtered collection *)
+Lemma inverse_twice o fa i :
+  applied o = false :: fa -> inverse_filter cur (Some 1%nat) o = Ok i ->
+  inverse_filter cur (Some 1%nat) i = Ok o.
+Proof.
+  intros A H. unfold inverse_filter in H. rewrite A in H. cbn [cur v_pop_default orb] in H.
+  inversion H. subst i. unfold inverse_filter. cbn [applied unfilter unfilter_n prefiltered].
+  rewrite A. reflexivity.
+Qed.
+
+(* -------------------- c.filter(a=.., b=..) selects what c.filter_by_a(..).filter_by_b(..) selects *)
+Lemma convert1_env sh E E' chk v :
+  e_root E = e_root E' -> e_fda E = e_fda E' ->
+  convert1 sh true E chk v = convert1 sh true E' chk v.
+Proof.
+  destruct E as [r s d], E' as [r' s' d']. cbn [e_root e_fda]. intros -> ->.
+  unfold convert1. cbn [e_root e_self e_fda]. reflexivity.
+Qed.
+
+Lemma run_filter_env E E' am pm f a :
+  e_root E = e_root E' -> e_fda E = e_fda E' ->
+  run_filter cur E am pm f a = run_filter cur E' am pm f a.
+Proof.
+  intros R D. destruct f; try reflexivity. cbn [run_filter cur v_short v_da_root].
+  unfold by_axis_gen, convert. destruct vs as [|v vs']; [reflexivity|].
+  replace (flat_map (convert1 identities_short true E true) (v :: vs'))
+    with (flat_map (convert1 identities_short true E' true) (v :: vs')); [reflexivity|].
+  apply flat_map_ext. intro x. symmetry. apply convert1_env; assumption.
+Qed.
+
+Definition same_outcome (a b : result cobj) : Prop :=
+  match a, b with
+  | Ok x, Ok y => members x = members y /\ length (applied x) = length (applied y)
+  | Err e1, Err e2 => e1 = e2
+  | _, _ => False
+  end.
+
+Lemma method_chain_eq_call fda am pm self fs : forall o arg,
+  members o = members arg -> root_obj o = root_obj self -> length (applied o) = length (applied arg) ->
+  same_outcome (run_ops cur fda o (map (fun f => OFilter am pm [f]) fs))
+               (chain_obj cur fda am pm self fs arg).
+Proof.
+  induction fs as [|f fs IH]; intros o arg M R L.
+  - simpl. split; assumption.
+  - cbn [map run_ops step_op chain_obj]. unfold step_filter.
+    rewrite (run_filter_env (env_of fda o) (env_of fda self) am pm f (members o))
+      by (unfold env_of; cbn [e_root e_fda]; try rewrite R; reflexivity).
+    rewrite M. destruct (run_filter cur (env_of fda self) am pm f (members arg)) as [m|e]; [|reflexivity].
+    cbn [cur v_type_pre_arg negb]. rewrite andb_false_r. apply IH.
+    + reflexivity.
+    + cbn [root_obj]. exact R.
+    + cbn [applied length]. rewrite L. reflexivity.
+Qed.
+
+(* ---------------------------------------------------------------- accessors *)
+Lemma return_construct_found sel k :
+  return_construct sel = Found k <-> exists c, sel = [c] /\ c_key c = k.
+Proof.
+  unfold return_construct. destruct sel as [|c [|c2 r]]; split.
+  - discriminate.
+  - intros [c [H _]]. discriminate.
+  - intro H. inversion H. exists c. split; reflexivity.
+  - intros [c' [H K]]. inversion H. subst. reflexivity.
+  - discriminate.
+  - intros [c' [H _]]. discriminate.
+Qed.
+
+Lemma return_construct_not_unique sel n :
+  return_construct sel = NotUnique n <-> n = length sel /\ n <> 1%nat.
+Proof.
+  unfold return_construct. destruct sel as [|c [|c2 r]]; split; intro H.
+  - inversion H. split; [reflexivity|discriminate].
+  - destruct H as [-> _]. reflexivity.
+  - discriminate.
+  - destruct H as [-> N]. exfalso. apply N. reflexivity.
+  - inversion H. split; [reflexivity|discriminate].
+  - destruct H as [-> _]. reflexivity.
+Qed.
+
+(* a typed accessor returns the construct with key k exactly when k's
+   construct is the one and only member of the collection that every filter
+   (type, keyword filters, identities) selects *)
+Lemma unique_accessor K E ts ids fs sel k :
+  wf K (e_self E) ->
+  run_chain cur E AAnd ["and"] (typed_filters ts ids fs) (e_self E) = Ok sel ->
+  (return_construct sel = Found k <->
+   exists c, sel = [c] /\ c_key c = k /\ In c (e_self E) /\
+             forallb (fun f => selects E AAnd ["and"] f c) (typed_filters ts ids fs) = true).
+Proof.
+  intros W H. rewrite return_construct_found. split.
+  - intros [c [S Kc]]. exists c. splits; try assumption.
+    + apply (chain_intersection K E AAnd ["and"] _ _ _ W H c). subst sel. left. reflexivity.
+    + apply (chain_intersection K E AAnd ["and"] _ _ _ W H c). subst sel. left. reflexivity.
+  - intros [c [S [Kc _]]]. exists c. split; assumption.
+Qed.
+
+(* ------------------------------------ a decidable form of the well-formedness *)
+Fixpoint nodupb (l : list string) : bool :=
+  match l with [] => true | x :: r => negb (mem x r) && nodupb r end.
+
+Definition wfb (K : list string) (a : list construct) : bool :=
+  nodupb (keys_of a) && inclb (keys_of a) K &&
+  forallb (fun k => negb (prefixb "key%" k)) K &&
+  forallb (fun c => forallb (fun i => match key_hit K (VStr i) with None => true | Some _ => false end)
+                            (identities c)) a.
+
+Lemma nodupb_inj (a : list construct) : nodupb (keys_of a) = true -> key_inj a.
+Proof.
+  unfold key_inj. induction a as [|x r IH]; intros N c c' Hc Hc' E; [contradiction|].
+  cbn [keys_of map nodupb] in N. apply andb_true_iff in N as [N1 N2].
+  apply negb_true_iff in N1. apply mem_false in N1.
+  destruct Hc as [<-|Hc], Hc' as [<-|Hc'].
+  - reflexivity.
+  - exfalso. apply N1. rewrite E. apply in_map. exact Hc'.
+  - exfalso. apply N1. rewrite <- E. apply in_map. exact Hc.
+  - apply IH; assumption.
+Qed.
+
+Lemma wfb_wf K a : wfb K a = true -> wf K a.
+Proof.
+  unfold wfb, wf. intro H. repeat (apply andb_true_iff in H; destruct H as [H ?]). splits.
+  - apply nodupb_inj. exact H.
+  - apply inclb_incl. assumption.
+  - intros k Hk. match goal with X : forallb _ K = true |- _ => rewrite forallb_forall in X; specialize (X k Hk) end.
+    apply negb_true_iff. assumption.
+  - intros c Hc i Hi.
+    match goal with X : forallb _ a = true |- _ => rewrite forallb_forall in X; specialize (X c Hc) end.
+    match goal with X : forallb _ (identities c) = true |- _ => rewrite forallb_forall in X; specialize (X i Hi) end.
+    destruct (key_hit K (VStr i)); [discriminate|reflexivity].
+Qed.
+
+(* ----------------------------------------------- a concrete field (non-vacuity) *)
+Definition noP : pinfo := mkP [] None.
+Definition ex_cs : list construct :=
+  [ mkC "auxiliarycoordinate0" "auxiliary_coordinate" (Some ["domainaxis1"; "domainaxis0"]) None None None
+        (mkP [("standard_name", "latitude")] None) None [] [];
+    mkC "cellmeasure0" "cell_measure" (Some ["domainaxis0"; "domainaxis1"]) None (Some "area") None
+        (mkP [("standard_name", "cell_area")] None) None [] [];
+    mkC "cellmethod0" "cell_method" None None (Some "mean") None noP None [] ["domainaxis0"];
+    mkC "dimensioncoordinate0" "dimension_coordinate" (Some ["domainaxis0"]) None None None
+        (mkP [("long_name", "x")] (Some "lat")) (Some (mkP [("standard_name", "latitude")] (Some "lat_bnds"))) [] [];
+    mkC "domainaxis0" "domain_axis" None (Some 3%Z) None (Some "tt") noP None [] [];
+    mkC "domainaxis1" "domain_axis" None (Some 2%Z) None None noP None [] [] ].
+Definition ex_E : env := mkE ex_cs ex_cs ["domainaxis1"; "domainaxis0"].
+
+Lemma ex_wf : wf (keys_of ex_cs) ex_cs.
+Proof. apply wfb_wf. vm_compute. reflexivity. Qed.
+
+(* the construct whose only plain identity comes from its bounds is found,
+   by identity and by the axis that identity stands for, through a chain *)
+Lemma ex_chain :
+  exists r, run_chain cur ex_E AOr ["and"]
+              [FType ["dimension_coordinate"; "cell_measure"]; FAxis [VStr "ncdim%tt"]; FIdentity [VStr "latitude"; VStr "cell_area"]]
+              ex_cs = Ok r /\ keys_of r = ["cellmeasure0"; "dimensioncoordinate0"].
+Proof. eexists. vm_compute. split; reflexivity. Qed.
+
+Lemma ex_plain : plain "latitude" = true /\
+  In "latitude" (identities (nth 3 ex_cs (mkC "" "" None None None None noP None [] []))) /\
+  ~ In "latitude" (identities_short_old (nth 3 ex_cs (mkC "" "" None None None None noP None [] []))).
+Proof.
+  vm_compute. splits; [reflexivity|right; right; left; reflexivity|intros [H|[]]; discriminate].
+Qed.
+
+Lemma method_chain_equals_filter_call fda am pm self fs :
+  same_outcome (run_ops cur fda self (map (fun f => OFilter am pm [f]) fs))
+               (chain_obj cur fda am pm self fs self).
+Proof. apply method_chain_eq_call; reflexivity. Qed.
+
+Lemma inverse_depth_one fda am pm self f arg o :
+  step_filter cur fda am pm self f arg = Ok o ->
+  exists r, inverse_filter cur (Some 1%nat) o = Ok r /\
+  (forall c, In c (members r) <-> In c (members arg) /\ ~ In (c_key c) (keys_of (members o))) /\
+  inverse_filter cur (Some 1%nat) r = Ok o.
+Proof.
+  intro H. destruct (inverse_after_filter _ _ _ _ _ _ _ H) as [r [I C]].
+  exists r. split; [exact I|split; [exact C|]].
+  unfold step_filter in H. destruct (run_filter cur (env_of fda self) am pm f (members arg)); [|discriminate].
+  inversion H. subst o. eapply inverse_twice; [reflexivity|exact I].
+Qed.
+
+(* why [wf] asks that no identity is itself a construct key: the key short cut
+   then hides the construct that has the identity *)
+Definition clash_cs : list construct :=
+  [ mkC "auxiliarycoordinate0" "auxiliary_coordinate" (Some ["domainaxis0"]) None None None
+        (mkP [("standard_name", "domainaxis0")] None) None [] [];
+    mkC "domainaxis0" "domain_axis" None (Some 3%Z) None None noP None [] [] ].
+
+Lemma identity_key_clash :
+  exists a ids c, nodupb (keys_of a) = true /\ In c a /\ sel_identity ids c = true /\
+                  ~ In c (by_identity ids a).
+Proof.
+  exists clash_cs, [VStr "domainaxis0"], (nth 0 clash_cs (mkC "" "" None None None None noP None [] [])).
+  splits; [reflexivity|left; reflexivity|reflexivity|].
+  vm_compute. intros [H|[]]. discriminate.
+Qed.
